@@ -41,7 +41,7 @@ def tokenize(text):
         else:
             k = "other"
         tk = {"k": k, "id": t.upper() if k == "word" else (" " if k == "blank" else ("\n" if k == "eol" else t)),
-              "text": t, "join": False, "split": False, "pad": False, "tight": False, "drop": False, "case": "asis", "width": "one", "extra": "none", "line": line}
+              "text": t, "join": False, "split": False, "pad": False, "tight": False, "drop": False, "ins": False, "case": "asis", "width": "one", "extra": "none", "line": line}
         toks.append(tk)
         if k == "eol":
             line += 1
@@ -93,6 +93,26 @@ def tokenize(text):
                 continue        # a sign or a comma directly after a keyword (TO-2, STEP-2, LOCATE, ,0): the blank after a keyword stays
             if (a["k"] == "other" and a["text"] in signs and a["text"] != ")") or (b_["k"] == "other" and b_["text"] in signs and b_["text"] != "("):
                 tk["drop"] = True
+    # a comma, a semicolon, a relational sign, `=`, `*`, `/` and a closing parenthesis may have blanks around them where
+    # the source has none (PRINT USING f$ ; x, A (1 ) = 2 , INPUT #1 , N).  Not `+` / `-` (a sign in front of a number
+    # is part of it), not `(` (NAME ( and NAME( are different things), not inside DATA lines (blanks belong to the items)
+    start = 0
+    for i in range(len(toks) + 1):
+        if i == len(toks) or toks[i]["k"] == "eol":
+            ln = toks[start:i]
+            words = [t for t in ln if t["k"] != "blank"]
+            head = words[0]["text"].upper() if words else ""
+            if head not in ("DATA", "REM") and not any(t["k"] == "word" and t["text"].upper() == "DATA" for t in ln):
+                for j, t in enumerate(ln):
+                    if t["k"] == "other" and t["text"] in (",", ";", "=", "*", "/", "<", ">", "<=", ">=", "<>", ")"):
+                        prev_t = ln[j - 1]["text"] if j > 0 else ""
+                        next_t = ln[j + 1]["text"] if j + 1 < len(ln) else ""
+                        if prev_t in ("<", ">", "=") or next_t in ("<", ">", "="):
+                            continue        # =< and >= written as two characters stay together
+                        if t["text"] == ")" and next_t.startswith("."):
+                            continue        # A(1).Member: nothing may stand between the parenthesis and the point
+                        t["ins"] = True
+            start = i + 1
     # a colon that separates two statements may have blanks around it; the colon of a label may not (it belongs to the name)
     start = 0
     for i in range(len(toks) + 1):
@@ -153,6 +173,8 @@ def materialise(toks, sites, eolkind, rng):
                 t = " ' note " + "n" * 44 + eol        # longer than any name may be
             else:
                 t = eol
+        elif k == "other" and mv in ("insl", "insr", "insboth"):
+            t = (" " if mv != "insr" else "") + t + (" " if mv != "insl" else "")
         elif k == "colon" and mv == "split":
             t = eol
         elif k == "colon" and mv == "pad":
@@ -252,7 +274,7 @@ def run(tier, replay):
     spath = os.path.join(d, "seeds.ndjson")
     with open(spath, "w") as f:
         for s in sd:
-            f.write(dumps({"id": s["id"], "pairs": s["id"] in pair_ids, "toks": [{k: tk[k] for k in ("k", "id", "join", "split", "pad", "tight", "drop", "case", "width", "extra")} for tk in s["toks"]]}) + "\n")
+            f.write(dumps({"id": s["id"], "pairs": s["id"] in pair_ids, "toks": [{k: tk[k] for k in ("k", "id", "join", "split", "pad", "tight", "drop", "ins", "case", "width", "extra")} for tk in s["toks"]]}) + "\n")
     res = run_tlc("Layout.tla", "Layout_%s.cfg" % tier, os.path.join(d, "tlc"), env={"SEEDS": spath}, timeout=3000)
     if res.timed_out:
         raise ToolError("TLC timed out on Layout.tla")
@@ -322,7 +344,7 @@ def run(tier, replay):
         "rule": "seeds: programs of the C01/C03/C04/C05 families, program texts from the repository's tests, and rejected programs; TLC "
                 "enumerates, per seed and per line-ending convention (CR LF, LF, CR), every subset of up to %d sites with every move "
                 "(case of a keyword/identifier: upper, lower, mixed; blank run: two blanks, tab; line end: blank line, trailing comment, "
-                "colon instead of newline between simple statements) and the all-at-once variants; non-trivial = the text differs "
+                "colon instead of newline between simple statements; a blank inserted before / after / around a comma, semicolon, relational sign, =, *, / or closing parenthesis) and the all-at-once variants; non-trivial = the text differs "
                 "from the base; distinct by text" % (2 if tier == "thorough" else 1),
         "seeds": len(sd), "variants_by_move": stats,
         "design_check": {"module": "Layout", "invariant": "CanonPreserved"},
